@@ -17,6 +17,7 @@ inductive Piece where
   | lit (b : UInt8)
   | str (left : Bool) (width : Nat)     -- `%Ns` (left = false) or `%-Ns` (left = true); width 0: plain `%s`
   | flt (width prec : Nat)              -- `%N.Pf` (also written `%0.Pf` when N = 0)
+  | int                                 -- `%d`
   | bad                                 -- a verb this model does not know
   deriving DecidableEq, Repr
 
@@ -24,6 +25,7 @@ inductive Piece where
 inductive Arg where
   | s (b : Bytes)
   | q (v : Q)
+  | i (v : Int)
 
 /-- a decimal number in front of the rest -/
 def width : Bytes → Nat → Nat × Bytes
@@ -41,6 +43,7 @@ def verb (s : Bytes) : Piece × Bytes :=
     | _ => False
   match width s1 0 with
   | (w, 115 :: r) => (if zeroPadded then .bad else .str left w, r)
+  | (w, 100 :: r) => (if zeroPadded || left || w != 0 then .bad else .int, r)
   | (w, 46 :: r) =>
     (match width r 0 with
      | (p, 102 :: r') => (if zeroPadded || left then .bad else .flt w p, r')
@@ -63,10 +66,13 @@ def render : List Piece → List Arg → Bytes
   | .lit b :: ps, args => b :: render ps args
   | .str left w :: ps, .s a :: args => (if left then padRight 32 w a else padLeft 32 w a) ++ render ps args
   | .flt w p :: ps, .q v :: args => Num.fmtFixedW w p v ++ render ps args
+  | .int :: ps, .i v :: args => Num.fmtInt v ++ render ps args
   | .str _ _ :: ps, _ :: args => render ps args
   | .flt _ _ :: ps, _ :: args => render ps args
+  | .int :: ps, _ :: args => render ps args
   | .str _ _ :: ps, [] => render ps []
   | .flt _ _ :: ps, [] => render ps []
+  | .int :: ps, [] => render ps []
   | .bad :: ps, args => render ps args
 
 /-- general form -/
@@ -77,7 +83,7 @@ def sprintf (f : Bytes) (args : List Bytes) : Bytes := render (parseFmt f) (args
 
 def wellFormed (f : Bytes) (nargs : Nat) : Bool :=
   let ps := parseFmt f
-  !ps.contains .bad && (ps.filter (fun p => match p with | .str _ _ => true | .flt _ _ => true | _ => false)).length == nargs
+  !ps.contains .bad && (ps.filter (fun p => match p with | .str _ _ => true | .flt _ _ => true | .int => true | _ => false)).length == nargs
 
 /-- the verbs of a format, in order: `true` for a number verb, `false` for a string verb; `none` when a verb is not modelled -/
 def signature (f : Bytes) : Option (List Bool) :=
